@@ -49,6 +49,51 @@ def arr_expr_env(e, textenv):
     raise Untranslatable(f'array expression {key[:60]}')
 
 
+class _Subst(ast.NodeTransformer):
+    def __init__(self, mapping):
+        self.mapping = mapping
+
+    def visit_Name(self, node):
+        if node.id in self.mapping:
+            return ast.copy_location(ast.parse(self.mapping[node.id], mode='eval').body, node)
+        return node
+
+
+def inline_helpers(stmts, mod, skip=()):
+    """statement list with every `targets = helper(args)` replaced by the body of `helper`, when `helper` is a function of
+    the same module whose body is straight-line (assignments to names, one final return).  Parameters are replaced by the
+    argument expressions, locals are renamed; `X = E; return X` collapses to `targets = E`."""
+    defs = {n.name: n for n in mod.body if isinstance(n, ast.FunctionDef)}
+    out = []
+    for st in stmts:
+        v = st.value if isinstance(st, ast.Assign) else None
+        if not (isinstance(v, ast.Call) and isinstance(v.func, ast.Name) and v.func.id in defs and v.func.id not in skip
+                and not v.keywords):
+            out.append(st)
+            continue
+        h = defs[v.func.id]
+        body = [b for b in h.body if not _is_doc(b)]
+        params = [a.arg for a in h.args.args]
+        if len(params) != len(v.args) or h.args.vararg or h.args.kwarg or h.args.kwonlyargs or not body \
+                or not isinstance(body[-1], ast.Return) or body[-1].value is None \
+                or not all(isinstance(b, ast.Assign) and len(b.targets) == 1 for b in body[:-1]):
+            out.append(st)
+            continue
+        mapping = {p_: '(' + ast.unparse(a) + ')' for p_, a in zip(params, v.args)}
+        for b in body[:-1]:
+            for n in ast.walk(b.targets[0]):
+                if isinstance(n, ast.Name):
+                    mapping.setdefault(n.id, f'_{h.name}_{n.id}'.lstrip('_'))
+        ren = [ast.fix_missing_locations(_Subst(mapping).visit(ast.parse(ast.unparse(b)).body[0])) for b in body]
+        if len(ren) >= 2 and ast.unparse(ren[-2].targets[0]) == ast.unparse(ren[-1].value):
+            tail = ast.Assign(targets=st.targets, value=ren[-2].value, lineno=st.lineno)
+            new = ren[:-2] + [tail]
+        else:
+            new = ren[:-1] + [ast.Assign(targets=st.targets, value=ren[-1].value, lineno=st.lineno)]
+        out += [ast.fix_missing_locations(ast.parse(ast.unparse(x)).body[0]) for x in new]
+    return out
+
+
 def _is_doc(s):
     return isinstance(s, ast.Expr) and isinstance(s.value, ast.Constant) and isinstance(s.value.value, str)
 
@@ -215,6 +260,14 @@ def generate(repo):
                 ok = len(dc.generators) == 1 and ast.unparse(gen.iter) == 'params' and d in dicts \
                     and ast.unparse(dc.value) == f'{d}[{ast.unparse(dc.key)}]' and isinstance(gen.target, ast.Name) \
                     and gen.target.id == ast.unparse(dc.key) and [ast.unparse(c) for c in gen.ifs] == [f'{gen.target.id} in {d}']
+                if not ok:
+                    # {name: grid for name, grid in D.items() if name in params}
+                    it = ast.unparse(gen.iter)
+                    d = it[:-len('.items()')] if it.endswith('.items()') else None
+                    ok = len(dc.generators) == 1 and d in dicts and isinstance(gen.target, ast.Tuple) and len(gen.target.elts) == 2 \
+                        and all(isinstance(t, ast.Name) for t in gen.target.elts) and ast.unparse(dc.key) == gen.target.elts[0].id \
+                        and ast.unparse(dc.value) == gen.target.elts[1].id \
+                        and [ast.unparse(c) for c in gen.ifs] == [f'{gen.target.elts[0].id} in params']
                 if not ok:
                     raise Untranslatable(f'keyword wiring {src[:60]}')
                 pairs.update(dicts[d])
@@ -442,7 +495,7 @@ def generate(repo):
         def build():
             fn = get_def(ot, pyname)
             return (f'def {lname} {HDR} (psf : A) (c : I) : A :=\n  '
-                    + arr_body(fn.body, {'psf': 'psf'}, calls={'transform_psf': 'transformPsf'}))
+                    + arr_body(inline_helpers(fn.body, ot, skip=('transform_psf',)), {'psf': 'psf'}, calls={'transform_psf': 'transformPsf'}))
         return build
     for pyname, lname in (('mtf_from_psf', 'mtf'), ('ptf_from_psf', 'ptf'), ('otf_from_psf', 'otf')):
         g.item(pyname, f'prysm/otf.py:{pyname}', (lambda p=pyname: get_def(ot, p)), from_psf(pyname, lname),
@@ -452,7 +505,7 @@ def generate(repo):
         outs = []
         for pyname in ('mtf_from_psf', 'ptf_from_psf', 'otf_from_psf'):
             fn = get_def(ot, pyname)
-            for n in ast.walk(fn):
+            for n in inline_helpers(fn.body, ot, skip=('transform_psf',)):
                 if isinstance(n, ast.Assign) and ast.unparse(n.targets[0]) == '(cy, cx)':
                     gen = n.value.generators[0]
                     assert ast.unparse(gen.iter) == 'data.shape'
